@@ -21,6 +21,14 @@ import faulthandler
 DEFAULT_AS_LIMIT = 3 << 30
 
 
+def _dump(signum, frame):
+    try:
+        sys.stderr.write('WATCHDOG pid=%d: still running shortly before its wall-clock limit\n' % os.getpid())
+        faulthandler.dump_traceback(all_threads=False)
+    except Exception:
+        pass
+
+
 def _child(fn, arg, wfd, as_limit, timeout):
     try:
         if as_limit:
@@ -29,13 +37,16 @@ def _child(fn, arg, wfd, as_limit, timeout):
             except (ValueError, OSError):
                 pass
         if timeout:
-            faulthandler.dump_traceback_later(max(1, timeout - 1), exit=False)
+            # no faulthandler.dump_traceback_later here: its watchdog thread does not survive a
+            # nested fork and re-arming it in a grandchild can deadlock; SIGALRM is fork-safe
+            signal.signal(signal.SIGALRM, _dump)
+            signal.alarm(max(1, int(timeout) - 1))
         try:
             out = ('ok', fn(arg))
         except BaseException:
             out = ('exc', traceback.format_exc())
         if timeout:
-            faulthandler.cancel_dump_traceback_later()
+            signal.alarm(0)
         try:
             data = pickle.dumps(out, protocol=4)
         except BaseException:
